@@ -125,7 +125,7 @@ Fixpoint mp_loop (fuel : nat) (bd : list N) (rest : list N) (opened : bool)
           end
         end
       end
-    | _ => PPanicIdx                                   (* header_parts[1] *)
+    | _ => PErr                  (* fix 6a8176b: no ": " on the line gives the empty value, which is not a content range (was header_parts[1]) *)
     end
   else mp_loop f bd r2 opened' acc
   end end end end.
@@ -140,10 +140,21 @@ Fixpoint resp_headers (fuel : nat) (rest : list N) (hs : list header) : rpres (l
   match parse_resp_header line with
   | None => PErr
   | Some h =>
-    if beqs (hname h) Hd_CONTENT_LENGTH && match parse_usize (hvalue h) with None => true | Some _ => false end then PPanicCL
+    if beqs (hname h) Hd_CONTENT_LENGTH && match parse_usize (hvalue h) with None => true | Some _ => false end then PErr     (* fix 9d21363: was an unwrap panic *)
     else resp_headers f rest' (hs ++ [h])
   end end.
 
+(* a response that is not multipart: one part; its range comes from the Content-Range header when there is one (fix 5f94c65),
+   else it is 0-len/len *)
+Definition single_part (v : list N) (c : N) (rsn : list N) (hs : list header) (body t : list N) : rpres presp :=
+  let L := N.of_nat (length body) in
+  match find (fun h => beqs (hname h) CR_NAME) hs with
+  | None => POk (mkPresp v c rsn hs [(0, L, show_N L, body, t)])
+  | Some h => match parse_cr_value (hvalue h) with
+              | None => PErr
+              | Some (st, en, sz) => POk (mkPresp v c rsn hs [(to_u64 st, to_u64 en, show_signed sz, body, t)])
+              end
+  end.
 Definition response_parse (input : list N) : rpres presp :=
   let (line, rest) := split_line input in
   if negb (utf8_valid line) then PErr else
@@ -163,8 +174,39 @@ Definition response_parse (input : list N) : rpres presp :=
           | Some bd => match mp_loop (S (length body)) bd body false [] with
                        | POk rs => POk (mkPresp v c rsn hs rs) | PErr => PErr | PPanicCL => PPanicCL | PPanicIdx => PPanicIdx end
           end
-        else let L := N.of_nat (length body) in POk (mkPresp v c rsn hs [(0, L, show_N L, body, t)])
-      | None => let L := N.of_nat (length body) in POk (mkPresp v c rsn hs [(0, L, show_N L, body, OCTET)])
+        else single_part v c rsn hs body t
+      | None => single_part v c rsn hs body OCTET
       end
     end
   end.
+
+(* ---- the two serialisers on library-level response values (presp): Response::generate_response (associated fn, used by
+   the server) and Response::generate (instance method).  They differ for a single part: the instance method pushes the
+   Content-Type header onto self instead of onto the copy it serialises (C15-F2; pinned by response::example::build). ---- *)
+Definition pr_start (p : N * N * list N * list N * list N) := fst (fst (fst (fst p))).
+Definition pr_end (p : N * N * list N * list N * list N) := snd (fst (fst (fst p))).
+Definition pr_size (p : N * N * list N * list N * list N) := snd (fst (fst p)).
+Definition pr_body (p : N * N * list N * list N * list N) := snd (fst p).
+Definition pr_type (p : N * N * list N * list N * list N) := snd p.
+Definition cr_text (p : N * N * list N * list N * list N) : list N :=
+  Rg_BYTES ++ [32] ++ show_N (pr_start p) ++ [45] ++ show_N (pr_end p) ++ [47] ++ pr_size p.
+Definition lib_part (first : bool) (p : N * N * list N * list N * list N) : list N :=
+  (if first then [] else CRLF) ++ SEP_LINE ++ CRLF ++
+  Hd_CONTENT_TYPE ++ COLON_SP ++ [32] ++ pr_type p ++ CRLF ++
+  Hd_CONTENT_RANGE ++ COLON_SP ++ [32] ++ cr_text p ++ CRLF ++ CRLF ++ pr_body p.
+Definition lib_body (l : list (N * N * list N * list N * list N)) : list N :=
+  match l with
+  | [] => []
+  | [p] => pr_body p
+  | p0 :: rest => lib_part true p0 ++ flat_map (lib_part false) rest ++ CRLF ++ SEP_LINE
+  end.
+Definition lib_derived (inst : bool) (l : list (N * N * list N * list N * list N)) : list header :=
+  match l with
+  | [] => []
+  | [p] => (if inst then [] else [mkH Hd_CONTENT_TYPE (pr_type p)]) ++
+           [mkH Hd_CONTENT_RANGE (cr_text p); mkH Hd_CONTENT_LENGTH (show_N (N.of_nat (length (pr_body p))))]
+  | _ => [mkH Hd_CONTENT_TYPE Rg_MULTIPART_BYTERANGES_CONTENT_TYPE]
+  end.
+Definition lib_generate (inst : bool) (r : presp) : list N :=
+  pr_version r ++ [32] ++ show_N (pr_status r) ++ [32] ++ pr_reason r ++ CRLF ++
+  flat_map gen_header (pr_headers r ++ lib_derived inst (pr_ranges r)) ++ CRLF ++ lib_body (pr_ranges r).
